@@ -2,8 +2,11 @@
 //   param0..1 = range of the length s, param2 = 1: every page-end distance 0..34 and 'far' for both operands (0: ten
 //   boundary distances), param3 = 0: Eq, 1: three-way, param4 = 1: no readable slack after the operands (sanitizer contract).   The operands are objects of exactly s bytes followed by the rest
 //   of their page (at most 64 readable foreign bytes) and then an unmapped page.
-#include "sonic/internal/arch/simd_base.h"
+#include <cstdint>
+#include <cstddef>
+#include <cstring>
 #include "verif.h"
+#include "sonic/internal/arch/simd_base.h"
 #include <stdlib.h>
 #include <string.h>
 
